@@ -8,6 +8,7 @@ mod pool;
 mod stack;
 mod zcq;
 mod avg;
+mod arc;
 
 use std::io::{BufRead, Write};
 
@@ -32,6 +33,7 @@ fn main() {
             "stack" => stack::run(&case),
             "zcq" => zcq::run(&case),
             "avg" => avg::run(&case),
+            "arc" => arc::run(&case),
             other  => panic!("unknown case kind '{other}'"),
         };
         let text: Vec<String> = trace.iter().map(|v| v.to_string()).collect();
